@@ -92,6 +92,7 @@ contract(
         "not any(data[k] < 128 for k in range(offset, len(data))) or "
         "(result[1] == msb_end(data, offset) and offset < result[1] and result[0] == ofsval(data, offset, result[1]))",
         "result[0] >= 0",
+        "result[1] >= offset",
     ],
     loops={1: dict(
         invariant=[
@@ -105,4 +106,89 @@ contract(
         ],
         decreases="max(len(data) - pos, 0)",
     )},
+)
+
+# ---- index v4 path compression: remove-count varint + suffix + NUL, relative to the previous path --------------------
+NO_NUL = "all({p}[k] != 0 for k in range(0, len({p})))"
+# shape of an encoding `r` of `path` against `prev` with common prefix length c; e = length of the varint
+E = "(len(result) - 1 - (len(path) - c))"
+SHAPE = (f"0 <= c and c <= len(path) and c <= len(previous_path) and all(path[k] == previous_path[k] for k in range(0, c)) and "
+         f"{E} >= 1 and ofsval(result, 0, {E}) == len(previous_path) - c and all(result[k] >= 128 for k in range(0, {E} - 1)) and result[{E} - 1] < 128 and "
+         f"all(result[{E} + k] == path[c + k] for k in range(0, len(path) - c)) and result[len(result) - 1] == 0")
+contract(
+    prop=["C11"], file=I, func="_compress_path",
+    params={"path": "bytes", "previous_path": "bytes"}, returns="bytes",
+    ensures=[f"any({SHAPE} for c in range(0, len(path) + 1))",
+             # git's prefix is the MAXIMAL common prefix (byte-identical files)
+             "common_len == len(path) or common_len == len(previous_path) or path[common_len] != previous_path[common_len]"],
+    loops={1: dict(invariant=["common_len == _it1 or True", "0 <= common_len and common_len <= _it1 and common_len <= min_len",
+                              "all(path[k] == previous_path[k] for k in range(0, common_len))", "common_len == _it1"],
+                   types={"common_len": "int"})},
+    options={"witness": {"c": "common_len"}},
+)
+COMPLETE = "any(data[k] < 128 for k in range(offset, len(data)))"
+S_ = "msb_end(data, offset)"
+REM = f"ofsval(data, offset, {S_})"
+E_ = "(result[1] - 1)"
+KEEP = f"(len(previous_path) - {REM})"
+contract(
+    prop=["C11", "C04"], file=I, func="_decompress_path",
+    params={"data": "bytes", "offset": "int", "previous_path": "bytes"}, returns="tuple[bytes,int]",
+    requires=["0 <= offset"],
+    raises={"ValueError": None},
+    ensures=[
+        # on a complete varint: suffix = bytes up to the first NUL after it; result = kept prefix of the previous path ++ suffix
+        f"not {COMPLETE} or ({S_} <= {E_} and {E_} < len(data) and data[{E_}] == 0 and all(data[k] != 0 for k in range({S_}, {E_})))",
+        f"not {COMPLETE} or ({REM} <= len(previous_path) and len(result[0]) == {KEEP} + ({E_} - {S_}))",
+        f"not {COMPLETE} or all(result[0][k] == previous_path[k] for k in range(0, {KEEP}))",
+        f"not {COMPLETE} or all(result[0][{KEEP} + k] == data[{S_} + k] for k in range(0, {E_} - {S_}))",
+    ],
+    loops={1: dict(invariant=["suffix_start <= suffix_end and (suffix_end <= len(data) or suffix_end == suffix_start)",
+                              "all(data[k] != 0 for k in range(suffix_start, suffix_end))"],
+                   decreases="max(len(data) - suffix_end, 0)")},
+)
+# (a mechanised round-trip lemma over these two contracts was tried and left undecided by all solvers within the budget:
+#  the two functional specifications compose - the decoder's (remove count, suffix) is exactly what the encoder's shape
+#  fixes - but the composition is checked by the bounded stand-in c11_roundtrip only)
+
+# ---- the stream variant used by read_cache_entry: same function of (content from the current position, previous path) --
+import contracts.c19_protocol  # noqa: F401,E402  (class spec of io.BytesIO: content, pos)
+D_ = "f.content"
+O_ = "old(f.pos)"
+COMPLETE_S = f"any({D_}[k] < 128 for k in range({O_}, len({D_})))"
+SS = f"msb_end({D_}, {O_})"
+REM_S = f"ofsval({D_}, {O_}, {SS})"
+ES = f"({O_} + result[1] - 1)"
+KEEP_S = f"(len(previous_path) - {REM_S})"
+contract(
+    prop=["C11", "C04"], file=I, func="_decompress_path_from_stream",
+    params={"f": "obj:BytesIO", "previous_path": "bytes"}, returns="tuple[bytes,int]",
+    # (no precondition: a position beyond the end simply hits end-of-file -> ValueError)
+    modifies=["f.pos"],
+    raises={"ValueError": None},
+    ensures=[
+        "f.pos == old(f.pos) + result[1] and result[1] >= 2",
+        f"{SS} <= {ES} and {ES} < len({D_}) and {D_}[{ES}] == 0",
+        f"all({D_}[k] != 0 for k in range({SS}, {ES}))",
+        f"{REM_S} <= len(previous_path) and len(result[0]) == {KEEP_S} + ({ES} - {SS})",
+        f"all(result[0][k] == previous_path[k] for k in range(0, {KEEP_S}))",
+        f"all(result[0][{KEEP_S} + k] == {D_}[{SS} + k] for k in range(0, {ES} - {SS}))",
+    ],
+    loops={
+        1: dict(invariant=[
+            "old(f.pos) <= f.pos and (f.pos <= len(f.content) or f.pos == old(f.pos)) and bytes_consumed == f.pos - old(f.pos)",
+            "first == (f.pos == old(f.pos))",
+            "remove_len >= 0",
+            "first or remove_len == ofsval(f.content, old(f.pos), f.pos)",
+            "all(f.content[k] >= 128 for k in range(old(f.pos), f.pos))",
+            "msb_end(f.content, old(f.pos)) == msb_end(f.content, f.pos)",
+        ], decreases="max(len(f.content) - f.pos, 0)", types={"byte_data": "bytes", "byte": "int"}),
+        2: dict(invariant=[
+            "f.pos <= len(f.content) and bytes_consumed == f.pos - old(f.pos)",
+            "f.pos - len(suffix) == msb_end(f.content, old(f.pos)) and msb_end(f.content, old(f.pos)) > old(f.pos)",
+            "remove_len == ofsval(f.content, old(f.pos), msb_end(f.content, old(f.pos)))",
+            "all(suffix[k] == f.content[f.pos - len(suffix) + k] and suffix[k] != 0 for k in range(0, len(suffix)))",
+            "all(f.content[k] != 0 for k in range(msb_end(f.content, old(f.pos)), f.pos))",
+        ], decreases="len(f.content) - f.pos", types={"byte_data": "bytes", "byte": "int", "suffix": "bytes"}, keep=["remove_len", "first"]),
+    },
 )
